@@ -208,6 +208,8 @@ def _random_alleles(g, rng, n):
     while len(picks) < n:
         if picks and rng.random() < 0.35:
             picks.append(rng.choice(picks))
+        elif dele and rng.random() < 0.06:
+            picks.append(dele)  # the deletion allele itself as a called copy
         else:
             picks.append(rng.choice(names))
     picks = picks[:n]
